@@ -406,6 +406,11 @@ func (x *Exec) assumeTypeFacts(st *State, v Val, t types.Type) {
 		s := v.(*SliceV)
 		st.assume(And(Ge(s.Base, IntC(0)), Lt(s.Base, st.alloc), Ge(s.Off, IntC(0)), Ge(s.Len, IntC(0)), Le(s.Len, s.Cap)))
 		st.assume(Implies(Eq(s.Base, IntC(0)), And(Eq(s.Len, IntC(0)), Eq(s.Cap, IntC(0)))))
+		// a slice of non-empty elements cannot be larger than the address space the runtime
+		// hands out (maxAlloc = 2^48 bytes on 64-bit): what keeps len arithmetic from wrapping
+		if _, isStruct := u.Elem().Underlying().(*types.Struct); !isStruct || u.Elem().Underlying().(*types.Struct).NumFields() > 0 {
+			st.assume(Le(s.Cap, IntC(1<<48)))
+		}
 	case *types.Signature:
 		f := v.(*FuncV)
 		st.assume(And(Ge(f.Fn, IntC(0)), Ge(f.Env, IntC(0)), Lt(f.Env, st.alloc)))
